@@ -1748,9 +1748,15 @@ async fn initial_state(
 ) -> Result<StateItem> {
     clock::install();
     let mut dev = Dev::create(dir, backend, "verif-account", true).await?;
+    // the user folder is created WITH a flag, so that the first set_flags
+    // operation clears a bit that the folder's creation event carries
+    // (compaction must not bring it back)
     let r = dev
         .account
-        .create_folder(NewFolderOptions::new("folder-2".to_string()))
+        .create_folder(NewFolderOptions {
+            flags: Some(VaultFlags::NO_SYNC),
+            ..NewFolderOptions::new("folder-2".to_string())
+        })
         .await?;
     let folders = dev.account.list_folders().await?;
     let mut mf = vec![];
